@@ -128,12 +128,45 @@ def simpleField (p : Bytes) : Option (Bytes × Option Bytes) :=
       | some k, some o => some (k, some o)
       | _, _ => none
 
-def simpleProj (t : Bytes) : Option (List (Bytes × Option Bytes)) :=
+/-- pieces of a text separated by runs of ASCII blanks and commas: (start offset, piece, number of
+commas in the separator run before it), and the number of commas after the last piece -/
+def scanPieces : Bytes → Nat → Nat → Option (Nat × Bytes) → List (Nat × Bytes × Nat) → List (Nat × Bytes × Nat) × Nat
+  | [], _, commas, cur, acc =>
+    match cur with
+    | some (st, rev) => ((acc ++ [(st, rev.reverse, commas)]), 0)
+    | none => (acc, commas)
+  | c :: r, idx, commas, cur, acc =>
+    if asciiSpace c || c == 44 then
+      match cur with
+      | some (st, rev) => scanPieces r (idx + 1) (if c == 44 then 1 else 0) none (acc ++ [(st, rev.reverse, commas)])
+      | none => scanPieces r (idx + 1) (if c == 44 then commas + 1 else commas) none acc
+    else
+      match cur with
+      | some (st, rev) => scanPieces r (idx + 1) commas (some (st, c :: rev)) acc
+      | none => scanPieces r (idx + 1) commas (some (idx, [c])) acc
+
+/-- commas where the grammar `part {","? part}` has none: before the first field, two between
+fields, or after the last field -/
+def badComma (t : Bytes) : Bool :=
+  let (items, trailing) := scanPieces t 0 0 none []
+  !has t 34 && t.all (· < 0x80) &&
+    (trailing > 0 || (match items with
+      | [] => false
+      | (_, _, c0) :: rest => c0 > 0 || rest.any (fun it => it.2.2 > 1)))
+
+/-- simple projection: fields with their start offsets -/
+def simpleProjAt (t : Bytes) : Option (List (Nat × Bytes × Option Bytes)) :=
   if has t 40 || has t 41 || has t 92 || !t.all (· < 0x80) then none
   else
-    let chunks := (splitOn asciiSpace t []).filter (!·.isEmpty)
-    let pieces := chunks.flatMap fun c => splitOn (· == 44) c []
-    if pieces.isEmpty then none else pieces.mapM simpleField
+    let (items, trailing) := scanPieces t 0 0 none []
+    let commasOK := trailing == 0 && (match items with
+      | [] => false
+      | (_, _, c0) :: rest => c0 == 0 && rest.all (fun it => it.2.2 ≤ 1))
+    if !commasOK then none
+    else items.mapM fun it => (simpleField it.2.1).map fun f => (it.1, f.1, f.2)
+
+def simpleProj (t : Bytes) : Option (List (Bytes × Option Bytes)) :=
+  (simpleProjAt t).map fun fs => fs.map fun f => (f.2.1, f.2.2)
 
 def acceptableOrder (o : Bytes) : Bool := documentedOrder o || o == Bytes.ofString "first"
 
@@ -144,6 +177,24 @@ def simpleProjBad (fs : List (Bytes × Option Bytes)) : Option String :=
   else if fs.any (fun f => f.1 == Bytes.ofString ".unit") then some "unit"
   else if fs.any (fun f => f.1.isEmpty) then some "emptykey"
   else none
+
+def fieldBad (f : Bytes × Option Bytes) : Bool :=
+  (match f.2 with | some o => !acceptableOrder o | none => false) ||
+    f.1 == Bytes.ofString ".unit" || f.1.isEmpty
+
+/-- byte span [start, end] of the first rejected field of a simple projection: the error must be
+positioned there (at its key or at its order name) -/
+def firstBadSpan (t : Bytes) : Option (Nat × Nat) :=
+  match simpleProjAt t with
+  | none => none
+  | some fs =>
+    -- the source length of a piece is recovered from the next separator
+    let (items, _) := scanPieces t 0 0 none []
+    let spans := items.map fun it => (it.1, it.1 + it.2.1.length)
+    let isAndOr := fun (w : Bytes) => w == Bytes.ofString "AND" || w == Bytes.ofString "OR"
+    -- bare AND / OR are operators: the text then fails earlier, as a syntax error (no demand)
+    if fs.any (fun f => isAndOr f.2.1 || (match f.2.2 with | some o => isAndOr o | none => false)) then none
+    else ((fs.zip spans).find? fun p => fieldBad (p.1.2.1, p.1.2.2)).map (·.2)
 
 /-- a simple projection with nothing wrong must be accepted (bare AND / OR are operators, not keys:
 no demand then) -/
@@ -185,6 +236,7 @@ def mustRejectFilter (t : Bytes) : Option String :=
 would be an empty fixed list and must be rejected (finding N8, repaired in 147e6a6) -/
 def mustRejectProj (t : Bytes) : Option String :=
   if unbalancedParens t then some "unbalanced"
+  else if badComma t then some "comma"
   else if unterminatedQuote t then some "quote"
   else if emptyFixed t then some "emptyfixed"
   else if unitField t then some "unit"
